@@ -188,7 +188,12 @@ func runC20(c *ShardCtx) {
 				c.Res.Counters["rejected_by_both_front_ends"]++
 				return
 			}
-			c.Report(Violation{Desc: "the hand-written bootstrap front-end rejects a text of its subset that the generated front-end accepts: " + strings.SplitN(berr.Error(), "\n", 2)[0], Grammar: text, Opts: names}, "")
+			known := ""
+			if lt := strings.ToLower(text); strings.Contains(berr.Error(), "escape sequence is invalid Unicode code point") && (strings.Contains(lt, `\ue000`) || strings.Contains(lt, `\u0000e000`)) {
+				// exactly finding D34: the escape of U+E000, the first code point after the surrogates
+				known = "bootstrap-e000"
+			}
+			c.Report(Violation{Desc: "the hand-written bootstrap front-end rejects a text of its subset that the generated front-end accepts: " + strings.SplitN(berr.Error(), "\n", 2)[0], Grammar: text, Opts: names}, known)
 			return
 		}
 		c.Res.Counters["bootstrap_accepts"]++
@@ -214,6 +219,34 @@ func runC20(c *ShardCtx) {
 		}
 	}
 	ruleB := func() *peg.Rule { return &peg.Rule{Name: "B", Display: "the B", Expr: peg.Lit("b")} }
+	// rune family: the runes at the edges of the UTF-8 encoding lengths, of the surrogate gap and
+	// of the code space (U+FFFD - the rune a decoder also returns for an invalid byte - among them)
+	// written raw and in every escape form: in literals of each quoting, as class member, as both
+	// bounds of a range, next to each other
+	for _, r := range []rune{0x7f, 0x80, 0xff, 0x7ff, 0x800, 0xd7ff, 0xe000, 0xfffc, 0xfffd, 0xfffe, 0xffff, 0x10000, 0x10ffff} {
+		if c.Expired("rune family") {
+			return
+		}
+		rs := string(r)
+		bodies := []*peg.Expr{
+			peg.Lit(rs), peg.LitI(rs + "a"), peg.Lit("a" + rs + rs), peg.Cls(false, false, rs), peg.Cls(true, true, rs, "a"),
+			peg.Seq(peg.Lit(rs), peg.Cls(false, false, "a", rs, "b")),
+		}
+		if r > 0x80 && r != 0xe000 {
+			bodies = append(bodies, peg.Cls(false, false, string(r-1)+"-"+rs), peg.Cls(false, false, "a-"+rs))
+		}
+		if r < 0x10ffff && r != 0xd7ff {
+			bodies = append(bodies, peg.Cls(false, false, rs+"-"+string(r+1)))
+		}
+		for _, body := range bodies {
+			c.Res.Grammars++
+			g := &peg.Grammar{Rules: []*peg.Rule{{Name: "A", Expr: body}, ruleB()}}
+			check(g.Clone(), nil, 3)
+			for _, d := range devs {
+				check(g.Clone(), []deviation{d}, 3)
+			}
+		}
+	}
 	for size := 1; size <= n; size++ {
 		for _, body := range en.Size(size) {
 			if c.Expired("AST size " + itoa(size)) {
